@@ -93,6 +93,7 @@ def main() -> None:
     from dsim.core.rng import stream
 
     check = load(a.prop)
+    check.heartbeat = lambda: _emit({"ev": "hb"})  # type: ignore[method-assign]
     from dsim.env import fsseam
 
     fsseam.install()
